@@ -90,7 +90,9 @@ def norm(x, depth=0):
     if hasattr(x, '__next__') and depth < 3:
         return [norm(i, depth + 1) for i in x]
     if type(x).__name__ in ('bitarray', 'frozenbitarray'):
-        return ('bitarray', x.to01())
+        return ('bitarray', type(x).__name__, x.to01(), x.readonly, x.endian() if callable(getattr(x, 'endian', None)) else str(getattr(x, 'endian', None)))
+    if isinstance(x, (bytearray, memoryview)):
+        return (type(x).__name__, bytes(x))
     if isinstance(x, (int, str, bytes, bool, float)) or x is None:
         return x
     return repr(x)
@@ -148,6 +150,7 @@ def op_table():
         'unpack_bin': lambda o, a: o.unpack('bin'),
         'unpack_mixed': lambda o, a: o.unpack('uint:3, bits'),
         'tobitarray': lambda o, a: o.tobitarray(),
+        'tobitarray_use': lambda o, a: _use_bitarray(o),
         'copy': lambda o, a: o.copy(),
         'copycopy': lambda o, a: __import__('copy').copy(o),
         'to_Bits': lambda o, a: bs.Bits(o),
@@ -163,6 +166,18 @@ def op_table():
         'length_prop': lambda o, a: (o.len, o.length),
     }
     return T
+
+
+def _use_bitarray(o):
+    # the returned bitarray is the caller's: it can be edited like any other, and every call gives a new one
+    b1 = o.tobitarray()
+    b2 = o.tobitarray()
+    same = b1 is b2
+    b1.append(1)
+    b1.invert()
+    if len(b2):
+        b2[0] = not b2[0]
+    return (same, b1, b2, o.bin)
 
 
 def _pp(o, a):
@@ -210,6 +225,16 @@ def case_st(draw, tier, routes=ALL_ROUTES, mutate=False):
     if n and draw(st.booleans()):
         k = draw(st.integers(0, n - 1))
         args['pat'] = content[k:k + draw(st.integers(1, 8))]
+    runs = draw(st.integers(0, 7)) == 0
+    if runs:
+        # byte runs: whole-byte patterns with overlapping occurrences at byte boundaries
+        alphabet = draw(st.lists(bits_of_len(8), min_size=1, max_size=2))
+        content = ''.join(draw(st.lists(st.sampled_from(alphabet), min_size=1, max_size=40))) + draw(bits_st(max_len=7))
+        n = len(content)
+        k = 8 * draw(st.integers(0, n // 8))
+        args.update(content=content, same=draw(bits_of_len(n)), pat=content[k:k + 8 * draw(st.integers(1, 3))] or content[:8],
+                    start=draw(st.sampled_from([None, None, 0, 8, 3])), end=draw(st.sampled_from([None, None, n, n - 8, n - 3])),
+                    ba=draw(st.sampled_from([None, False, True, True])))
     case = {'cls': cls, 'route': route, 'salt': draw(st.integers(0, 60)), 'args': args, 'lsb0': draw(st.sampled_from([False, False, True]))}
     if mutate:
         case['mop'] = draw(c03.op_st(c03.ALL_OPS))
@@ -217,6 +242,8 @@ def case_st(draw, tier, routes=ALL_ROUTES, mutate=False):
     else:
         names = sorted(op_table()) + (sorted(STREAM_OPS) * 2 if cls in STREAMS else [])
         case['op'] = draw(st.sampled_from(names))
+        if runs and draw(st.integers(0, 3)):
+            case['op'] = draw(st.sampled_from(['findall', 'findall', 'find', 'rfind', 'split', 'contains', 'startswith', 'endswith'] + (['readto', 'find_moves'] if cls in STREAMS else [])))
     return case
 
 
